@@ -5,6 +5,8 @@
 
 package fr
 
+//@ pkginv _modulus == R_MOD
+
 //@ func madd0
 //@ props C15
 //@ prelude frint
@@ -330,6 +332,7 @@ package fr
 //@ requires I(*z) < R_MOD && z != &rSquare
 //@ ensures result == z && I(*z) < R_MOD
 //@ ensures (I(*z) * W4) % R_MOD == (I(old(*z)) * RSQ) % R_MOD
+//@ ensures fval(I(*z)) == I(old(*z))
 //@ modifies *z
 
 //@ func Element.SetUint64
@@ -338,6 +341,7 @@ package fr
 //@ requires z != &rSquare
 //@ ensures result == z && I(*z) < R_MOD
 //@ ensures (I(*z) * W4) % R_MOD == (v * RSQ) % R_MOD
+//@ ensures fval(I(*z)) == v
 //@ modifies *z
 
 //@ func Element.ToRegular
@@ -381,3 +385,114 @@ package fr
 //@ ensures c == 3 ==> I(*z) == (3 * I(old(*z))) % R_MOD
 //@ ensures c == 5 ==> I(*z) == (5 * I(old(*z))) % R_MOD
 //@ modifies *z
+
+// ---- encodings (C16)
+
+//@ func Element.Bytes
+//@ props C16
+//@ prelude frint bytesint
+//@ ensures BE32(res) == fval(I(*z))
+
+//@ func Element.BytesLE
+//@ props C16
+//@ prelude frint bytesint
+//@ ensures LE32(res) == fval(I(*z))
+
+//@ func Element.ToBigInt
+//@ props C16
+//@ prelude frint bytesint
+//@ ensures result == res && *res == I(*z)
+//@ modifies *res
+
+//@ func Element.ToBigIntRegular
+//@ props C16
+//@ prelude frint bytesint
+//@ ensures result == res && *res == fval(I(z))
+//@ modifies *res
+
+//@ func Element.setBigInt
+//@ props C16
+//@ prelude frint bytesint
+//@ requires 0 <= *v && *v < R_MOD && I(*z) == 0 && z != &rSquare
+//@ ensures result == z && I(*z) < R_MOD
+//@ ensures (I(*z) * W4) % R_MOD == (old(*v) * RSQ) % R_MOD
+//@ ensures fval(I(*z)) == old(*v)
+//@ modifies *z
+//@ loop 0 invariant 0 <= i && i <= len(vBits) && len(vBits) <= 4
+//@ loop 0 invariant z[0] == (0 < i ? vBits[0] : 0) && z[1] == (1 < i ? vBits[1] : 0) && z[2] == (2 < i ? vBits[2] : 0) && z[3] == (3 < i ? vBits[3] : 0)
+
+//@ func Element.SetBigInt
+//@ props C16
+//@ prelude frint bytesint
+//@ requires z != &rSquare
+//@ ensures result == z && I(*z) < R_MOD
+//@ ensures fval(I(*z)) == old(*v) % R_MOD
+//@ modifies *z
+
+//@ func Element.SetBytes
+//@ props C16
+//@ prelude frint bytesint
+//@ requires z != &rSquare
+//@ ensures result == z && I(*z) < R_MOD
+//@ ensures fval(I(*z)) == BEb(e) % R_MOD
+//@ modifies *z
+
+//@ func Element.SetBytesLE
+//@ props C16 C13
+//@ prelude frint bytesint
+//@ requires z != &rSquare
+//@ ensures result == z && I(*z) < R_MOD
+//@ ensures fval(I(*z)) == LEb(e) % R_MOD
+//@ ensures @C13 forall k int :: 0 <= k && k < len(e) ==> e[k] == old(e[k])
+//@ modifies *z
+//@ loop 0 invariant 0 <= i && i <= len(e) && len(b) == len(e) && fresh(b)
+//@ loop 0 invariant forall k int :: 0 <= k && k < i ==> b[len(e)-1-k] == e[k]
+
+//@ func Element.SetBytesLECanonical
+//@ props C16 C13 C10
+//@ prelude frint bytesint
+//@ requires z != &rSquare
+//@ ensures err == nil <==> LEb(e) < R_MOD
+//@ ensures err == nil ==> result0 == z && I(*z) < R_MOD && fval(I(*z)) == LEb(e)
+//@ ensures err != nil ==> *z == old(*z)
+//@ ensures @C13 forall k int :: 0 <= k && k < len(e) ==> e[k] == old(e[k])
+//@ modifies *z
+//@ loop 0 invariant 0 <= i && i <= len(e) && len(b) == len(e) && fresh(b)
+//@ loop 0 invariant forall k int :: 0 <= k && k < i ==> b[len(e)-1-k] == e[k]
+
+// ---- lemmas over the contracts above (client code in zz_lemmas_verif.go)
+
+//@ func lemmaFvalInjective
+//@ props C16
+//@ prelude frint
+//@ requires I(*a) < R_MOD && I(*b) < R_MOD && fval(I(*a)) == fval(I(*b))
+//@ ensures I(*a) == I(*b)
+//@ ensures *a == *b
+
+//@ func lemmaBytesRoundTrip
+//@ props C16
+//@ prelude frint bytesint
+//@ requires I(*s) < R_MOD && t != &rSquare && s != t
+//@ ensures *t == *s
+//@ modifies *t
+
+//@ func lemmaBytesLERoundTrip
+//@ props C16
+//@ prelude frint bytesint
+//@ requires I(*s) < R_MOD && t != &rSquare && s != t
+//@ ensures *t == *s
+//@ modifies *t
+
+//@ func lemmaBytesLECanonicalRoundTrip
+//@ props C16
+//@ prelude frint bytesint
+//@ requires I(*s) < R_MOD && t != &rSquare && s != t
+//@ ensures result == nil && *t == *s
+//@ modifies *t
+
+//@ func lemmaDecodeTwice
+//@ props C16
+//@ prelude frint bytesint
+//@ requires a != &rSquare && b != &rSquare && a != b
+//@ ensures *a == *b
+//@ modifies *a, *b
